@@ -331,6 +331,8 @@ def irrelevant_shape(etype, result, ans, anyt):
     if direction == "supertype" and kt == "b" and getattr(tgt, "primitive", False) and kr == "b":
         return "supertype:supertype-of-the-box-of-a-primitive"
     if kr == "p" and kt == "p" and result.t_constructor == tgt.t_constructor:
+        if any(kind(a) == "w" for a in tgt.type_args):
+            return "%s:same-constructor/projected-query" % direction
         return "%s:same-constructor" % direction
     if kr == "p" and direction == "subtype" and _nominally_below(result.t_constructor, _con_name(tgt)):
         return "subtype:generic-subclass-of-%s-target" % ("parameterized" if kt == "p" else "plain")
